@@ -404,6 +404,49 @@ def run_large(case):
             "sample": {"seed": sd, "idx": idx, "cells": n, "species": S, "space": desc["space"]["type"], "flags": sum(chst)}}
 
 
+def run_overflow(case):
+    """Deterministic engine, amounts so large (1e150 .. 1e300 molecules, all finite) that reaction or diffusion terms overflow to
+    +-inf: whatever happens to the other entries, a flagged entry keeps exactly its initial value in every record."""
+    use_repo()
+    engines.install()
+    import strengths as st
+    sd, idx = case["seed"], case["idx"]
+    r = gen.rng_for(sd, "C03ovf", idx)
+    n = r.randint(2, 4)
+    big = 10.0 ** r.uniform(150, 300)
+    net = st.RDNetwork([st.Species("A", D=r.choice([0.0, 1.0, 1e9]), density=0), st.Species("B", D=r.choice([0.0, 1.0]), density=0)],
+                       [st.Reaction(r.choice(["2 A -> B", "A + B -> ", "3 A -> 2 B", "A -> B"]), kf=r.choice([1.0, 1e9]), kr=r.choice([0.0, 1.0]))])
+    if r.random() < 0.5:
+        space = st.RDGridSpace(w=n, h=1, d=1, boundary_conditions={"x": r.choice(["reflecting", "periodical"])})
+    else:
+        space = st.RDGraphSpace([st.RDGraphSpaceNode(volume=r.uniform(0.5, 2)) for _ in range(n)],
+                                [st.RDGraphSpaceEdge(i, i + 1, surface=1.0, distance=1.0) for i in range(n - 1)])
+    state = [r.choice([0.0, 5.0, big, big * 0.5]) for _ in range(2 * n)]
+    state[r.randrange(n)] = big
+    chst = [int(r.random() < 0.5) for _ in range(2 * n)]
+    if not any(chst):
+        chst[0] = 1
+    system = st.RDSystem(net, space, state=state, chemostats=chst)
+    script = st.RDScript(system, t_sample=[0], t_max=1.0, time_step=r.choice([1e-3, 1.0]), sampling_policy="on_iteration", init_state_processing="none",
+                         units_system=st.UnitsSystem(quantity="molecule"))
+    t, d, complete, out = simhelp.run_script("euler", script, 3)
+    bad, counts = [], {"overflow_probes": 1}
+    X = d.reshape(d.shape[0], -1)
+    if np.all(np.isfinite(X)):
+        counts["overflow_probes_that_stayed_finite"] = 1
+    for j in range(X.shape[0]):
+        for k in range(2 * n):
+            if chst[k]:
+                counts["overflow_flagged_entry_samples"] = counts.get("overflow_flagged_entry_samples", 0) + 1
+                if not (X[j][k] == state[k]):
+                    bad.append({"what": "overflow probe: a flagged entry did not keep its initial value while other terms overflowed", "record": j, "entry": k,
+                                "got": repr(float(X[j][k])), "expected": state[k], "case": case})
+                    break
+        if bad:
+            break
+    return {"bad": bad[:2], "counts": counts, "key": chash(["overflow", sd, idx]), "nontrivial": True, "sample": {"seed": sd, "idx": idx, "cells": n, "amount": big}}
+
+
 def main():
     if len(sys.argv) > 2 and sys.argv[1] == "--replay":
         import json
@@ -455,6 +498,8 @@ def main():
     _run_extra(run, "vf.checks.c03:run_large", [{"seed": _seed(), "idx": _i, "shape": "cells"} for _i in range(60 if _tier() == "thorough" else 8)] +
                [{"seed": _seed(), "idx": 1000 + _i, "shape": "species"} for _i in range(400 if _tier() == "thorough" else 60)], cpu_budget=240)
     run.require("large_euler_step_entries", "large_flagged_entry_samples")
+    _run_extra(run, "vf.checks.c03:run_overflow", [{"seed": _seed(), "idx": _i} for _i in range(1500 if _tier() == "thorough" else 150)], cpu_budget=60)
+    run.require("overflow_flagged_entry_samples")
     return run.finish()
 
 
